@@ -10,6 +10,9 @@ Decided statically (see DESIGN.md section 5, C09):
   R-C09-4  Any: copy = clone() of a valid source; assignment installs a fresh holder.
   R-C09-5  Any::get<T>: the typed access is guarded by the exact-type test, every other path throws
            std::runtime_error.
+  R-C09-6  Any: possibly-null holder pointers are not dereferenced by the holder virtuals they are passed to.
+  R-C09-7  Optional<T>, T not trivially copyable: the storage bytes are only a placement-new address or the operand
+           of a cast to T*; they are never copied, swapped, assigned or filled as bytes.
 """
 import re
 
@@ -1061,17 +1064,130 @@ def check_any_get(ctx, tu, R5):
     ctx.floor(R5, n, 4, 'get<T>/is<T> instantiations in drivers/wrappers.cpp')
 
 
+# ============================================================================================
+#  R-C09-7: the raw storage of an Optional is only ever used as the address of a payload
+# ============================================================================================
+BYTE_OPS = {'memcpy', 'memmove', 'memset', 'copy', 'copy_n', 'swap', 'swap_ranges', 'fill', 'fill_n', 'move', 'move_backward',
+            'exchange', 'iter_swap', 'uninitialized_copy', 'uninitialized_copy_n', 'bcopy'}
+ADDR_FNS = {'std::addressof', 'std::launder'}
+ARRAY_ADDR = {'data', 'begin', 'cbegin', 'end', 'cend', 'operator[]', 'front', 'at'}
+
+
+def check_storage_bytes(ctx, tu):
+    """Every mention of the storage member in the members of Optional<T>, for payload types that are not trivially copyable, leads to
+    a typed payload access (cast to T*), a placement-new address, or nothing.  Copying, swapping, assigning or filling the bytes
+    relocates or destroys a payload without running its constructors/destructor."""
+    R = 'R-C09-7'
+    ctx.describe(R, 'Optional<T>, T not trivially copyable: the storage bytes are used only as a placement-new address or through a '
+                    'cast to T*; they are never copied, swapped, assigned or filled as bytes')
+    ff = opt_fields(tu)
+    if ff is None:
+        ctx.broken('%s: cannot identify the storage member of %s' % (R, OPT))
+        return
+    storage = ff[1]
+    nontriv = {}
+    for r in tu.records.values():
+        if r.get('tmpl') == OPT and r.get('targs') and r['targs'][0].get('trivially_copyable') is False:
+            nontriv[r['id']] = r['targs'][0]['t']
+    n = 0
+    for f in sorted(tu.functions.values(), key=lambda x: (x['q'], x['fty'])):
+        if f['dep'] or f.get('rec') != OPT or f.get('recid') not in nontriv or tu.body(f) is None:
+            continue
+        payload = nontriv[f['recid']]
+        inst = '%s %s' % (f['q'].replace('rkcommon::utility::', ''), f['fty'].replace('rkcommon::utility::', ''))
+        key = '%s|rkcommon/utility/Optional.h|%s|' % (R, pattern_name(tu, f))
+        roots = [tu.body(f)] + [tu.node(i) for i in f.get('inits', []) if tu.node(i)]
+        uses = []
+        fd = tu.node(f['id'])
+        for root in ([fd] if fd is not None else roots):
+            for x in tu.walk(root):
+                if x.get('kind') == 'MemberExpr' and x.get('name') == storage:
+                    uses.append(x)
+        for u in uses:
+            n += 1
+            verdict, why = _classify_storage_use(tu, u, payload)
+            if verdict == 'ok':
+                ctx.ok(R, '%s @%s' % (inst, tu.loc(u)), why, tu.loc(u), nontrivial=False)
+            elif verdict == 'bad':
+                ctx.violation(R, inst, 'the storage bytes of an Optional<%s> are %s at %s: the payload is relocated / overwritten bytewise without '
+                              'running its move constructor or destructor (a payload that owns or refers to its own address, e.g. a '
+                              'small-string std::string, is left dangling; the old payload is never destroyed)' % (payload, why, tu.loc(u)),
+                              tu.loc(u), key=key + 'bytewise')
+            else:
+                ctx.undecided(R, inst, 'use of the storage member not classified: %s' % why, tu.loc(u))
+    ctx.floor(R, n, 12, 'mentions of the storage member in Optional<std::string>, Optional<std::vector<int>>, Optional<Over64> members')
+
+
+def _classify_storage_use(tu, u, payload):
+    cur = u
+    base = lambda t: re.sub(r'\b(const|volatile)\b', '', t or '').replace('*', '').replace('&', '').replace(' ', '')
+    for _ in range(40):
+        p = tu.par(cur)
+        if p is None:
+            return 'ok', 'no consumer'
+        k = p.get('kind')
+        if k in ('CStyleCastExpr', 'CXXStaticCastExpr', 'CXXReinterpretCastExpr', 'CXXConstCastExpr', 'CXXFunctionalCastExpr'):
+            ct = tu.sd(p).get('ct') or p.get('type', {}).get('qualType', '')
+            if ('*' in ct or '&' in ct) and base(ct) == base(payload):
+                return 'ok', 'typed payload access through a cast to %s' % ct
+            cur = p
+            continue
+        if k in ('ImplicitCastExpr', 'ParenExpr', 'ExprWithCleanups', 'MaterializeTemporaryExpr', 'CXXBindTemporaryExpr', 'ConstantExpr'):
+            cur = p
+            continue
+        if k == 'UnaryOperator' and p.get('opcode') == '&':
+            cur = p
+            continue
+        if k == 'MemberExpr':            # storage.data / storage.swap ... : decided at the call
+            cur = p
+            continue
+        if k == 'CXXNewExpr':
+            if cur.get('id') in (tu.sd(p).get('pargs') or []):
+                return 'ok', 'placement-new address'
+            return 'und', 'operand of a new-expression'
+        if k in ('CXXMemberCallExpr', 'CXXOperatorCallExpr', 'CallExpr'):
+            sd, obj, args = tu.call_parts(p)
+            name = sd.get('q', '').split('::')[-1]
+            is_obj = obj is not None and (obj is cur or tu.strip(obj, casts=True) is tu.strip(cur, casts=True)) or (
+                k == 'CXXMemberCallExpr' and tu.kids(p) and tu.kids(p)[0] is cur)
+            if is_obj and name in ARRAY_ADDR:
+                cur = p
+                continue
+            if sd.get('q') in ADDR_FNS:
+                cur = p
+                continue
+            if name in BYTE_OPS or name == 'operator=':
+                return 'bad', 'passed to %s' % sd.get('q', name)
+            return 'und', 'passed to %s' % sd.get('q', name)
+        if k in ('CXXConstructExpr', 'CXXTemporaryObjectExpr'):
+            return 'bad', 'copied as a whole (%s)' % tu.sd(p).get('q', 'copy construction')
+        if k == 'CXXCtorInitializer':
+            return 'ok', 'member initialiser'
+        if k == 'UnaryExprOrTypeTraitExpr':
+            return 'ok', 'sizeof/alignof'
+        if k == 'BinaryOperator' and p.get('opcode') == '=':
+            return 'bad', 'assigned as bytes'
+        if k in ('ReturnStmt', 'VarDecl'):
+            return 'und', 'untyped byte pointer stored or returned'
+        if k in ('CompoundStmt', 'IfStmt', 'ForStmt', 'WhileStmt'):
+            return 'ok', 'value unused'
+        return 'und', 'consumer %s' % k
+    return 'und', 'too deep'
+
+
 def run(ctx):
     ctx.assume('*this and the argument of an Optional assignment are distinct objects (self-assignment not modelled)')
     ctx.assume('payload types behave as values; their own constructors/destructors are not analysed')
     tu = ctx.front.parse('drivers/wrappers.cpp', 'TBB')
     check_optional(ctx, tu)
     check_layout(ctx, tu)
+    check_storage_bytes(ctx, tu)
     check_any(ctx, tu)
     if ctx.tier == 'thorough':
         tu2 = ctx.front.parse('drivers/wrappers.cpp', 'TBB', std='gnu++17')
         check_optional(ctx, tu2)
         check_layout(ctx, tu2)
+        check_storage_bytes(ctx, tu2)
         check_any(ctx, tu2)
     from rkstatic import selftest
     selftest.run(ctx)
